@@ -938,10 +938,11 @@ class PVGNode():
                 locs.append(tx_loc)
         if self.variants:
             for v in self.variants:
-                if v.variant.is_circ_rna():
+                if v.variant.is_circ_rna() or not v.not_cleavage_altering():
                     continue
                 locs.append(v.variant.location)
-        variants = {x.variant for x in self.variants}
+        # A cleavage altering variant is carried by the neighbouring node.
+        variants = {x.variant for x in self.variants if x.not_cleavage_altering()}
         if upstream:
             upstream_indels = self.upstream_indel_map.get(upstream, [])
             variants.update(v for v in upstream_indels)
